@@ -254,6 +254,12 @@ func (s *Swarm) merge(buf []byte) (mesh.GossipData, error) {
 		return nil, err
 	}
 
+	// Remember which of the received subscriptions are live at the moment
+	live := make(map[string]bool)
+	other.Subscriptions(func(ev *event.Subscription, _ event.Value) {
+		live[ev.Key()] = s.state.Has(ev)
+	})
+
 	// Merge and get the delta
 	delta := s.state.Merge(other)
 	other.Subscriptions(func(ev *event.Subscription, v event.Value) {
@@ -264,14 +270,15 @@ func (s *Swarm) merge(buf []byte) (mesh.GossipData, error) {
 		// Find the active peer for this subscription event
 		key := ev.Key()
 		peer := s.findPeer(mesh.PeerName(ev.Peer))
+		was, now := live[key], s.state.Has(ev)
 
-		// If the subscription is added, notify (TODO: use channels)
-		if v.IsAdded() && peer.onSubscribe(key, ev.Ssid) && peer.IsActive() {
+		// If the subscription became live, notify (TODO: use channels)
+		if !was && now && peer.onSubscribe(key, ev.Ssid) && peer.IsActive() {
 			s.OnSubscribe(peer, ev)
 		}
 
-		// If the subscription is removed, notify (TODO: use channels)
-		if v.IsRemoved() && peer.onUnsubscribe(key, ev.Ssid) && peer.IsActive() {
+		// If the subscription is not live anymore, notify (TODO: use channels)
+		if was && !now && peer.onUnsubscribe(key, ev.Ssid) && peer.IsActive() {
 			s.OnUnsubscribe(peer, ev)
 		}
 	})
